@@ -262,3 +262,15 @@ pub fn schema_and_idxmeta() -> (Schema, Vec<IdxKey>) {
     };
     (schema, idxmeta)
 }
+
+pub fn value_proto_string(v: &Value) -> String {
+    v.to_proto_string_clone()
+}
+
+/// Revive a recycled entry by uuid as the internal identity (what the test-only `internal_revive_uuid` does).
+pub fn revive_uuid(w: &mut QueryServerWriteTransaction<'_>, u: Uuid) -> Result<(), OperationError> {
+    let filter = Filter::new_recycled(f_eq(Attribute::Uuid, PartialValue::Uuid(u)));
+    let f_valid = filter.validate(w.get_schema()).map_err(OperationError::SchemaViolation)?;
+    let re = crate::event::ReviveRecycledEvent { ident: Identity::from_internal(), filter: f_valid };
+    w.revive_recycled(&re)
+}
